@@ -873,22 +873,24 @@ func (s *AbsfsNFS) ReadDirPlus(dir *NFSNode) ([]*NFSNode, error) {
 	// Pre-cache attributes for all entries
 	for _, node := range nodes {
 		if attrs, found := s.attrCache.Get(node.path, s); !found || attrs == nil || !attrs.IsValid() {
-			info, err := s.fs.Stat(node.path)
+			info, err := s.fs.Lstat(node.path)
 			if err != nil {
 				continue
 			}
-			// Read Uid/Gid with lock protection
+			// Read FileId/Uid/Gid with lock protection
 			node.mu.RLock()
+			fileId := node.attrs.FileId
 			uid := node.attrs.Uid
 			gid := node.attrs.Gid
 			node.mu.RUnlock()
 
 			modTime := info.ModTime()
 			attrs := &NFSAttrs{
-				Mode: info.Mode(),
-				Size: info.Size(),
-				Uid:  uid,
-				Gid:  gid,
+				Mode:   info.Mode(),
+				Size:   info.Size(),
+				FileId: fileId,
+				Uid:    uid,
+				Gid:    gid,
 			}
 			attrs.SetMtime(modTime)
 			attrs.SetAtime(modTime)
